@@ -14,7 +14,7 @@ ASSUMPTIONS = ['accepted side: unit norm within 1e-12, direction cosine with the
                'the generator behind random_attitudes is an owned seam: np.random.default_rng is replaced by a stub whose uniform() returns every point of {0,1e-12,.25,.5,.75,1-1e-12}^3',
                'rotate_by(order="S") is only required to return unit rows (its intended ordering semantics are ambiguous in the documentation)',
                'infinite components are not judged (the statement speaks of finite vectors and of NaN)']
-REQUIRED_CLASSES = ['vec3', 'vec4', 'array', 'dcm-route', 'addsub', 'rotate_by', 'average', 'random', 'reject:vector', 'reject:matrix', 'accept:matrix', 'layout']
+REQUIRED_CLASSES = ['near-unit', 'vec3', 'vec4', 'array', 'dcm-route', 'addsub', 'rotate_by', 'average', 'random', 'reject:vector', 'reject:matrix', 'accept:matrix', 'layout']
 DECADES = [10.0 ** k for k in range(-100, 101, 10)]
 
 
@@ -48,6 +48,22 @@ def job_vectors(ctx, part):
                 ctx.expect(_is_unit_real(qa) and qa[0] == 0.0 and float(qa[1:] @ d) >= 1 - 1e-12, 'Quaternion(3-vector): pure unit, same direction', key, qa, d, 1e-12)
                 ctx.cls('vec3'); ctx.seen(('v3', i, s))
     else:
+        # norms within a hair of one (data rounded to a few decimals, single precision, re-scaled): unit afterwards like any other
+        NEAR = [1 + 1e-5, 1 - 1e-5, 1 + 3e-6, 1 - 3e-6, 1 + 1e-7, 1 - 1e-7, 1 + 1e-9, 1 + 1e-11, 1 - 1e-11]
+        U4 = np.array([d / np.linalg.norm(d) for d in dirs4[::7] if np.linalg.norm(d) > 0])
+        for si, s in enumerate(NEAR):
+            for N in (1, 2, 5, len(U4)):
+                rows = U4[:N] * s
+                key = f'near-unit rows N={N} norm={s!r}'
+                ok, Q = ctx.raises_ok(lambda: QuaternionArray(rows.copy()), (), 'QuaternionArray(N rows) accepted', key)
+                if ok:
+                    Qa = np.asarray(Q, float)
+                    good = Qa.shape == (N, 4) and bool(np.all(np.isfinite(Qa))) and float(np.abs(np.linalg.norm(Qa, axis=1) - 1).max()) <= 1e-12
+                    ctx.expect(good, 'QuaternionArray(rows with norms near one): unit rows', key, np.abs(np.linalg.norm(Qa, axis=1) - 1).max() if Qa.ndim == 2 else Qa, 0.0, 1e-12)
+                ok, q = ctx.raises_ok(lambda: Quaternion(rows[N - 1].copy()), (), 'Quaternion(4-vector) accepted', key)
+                if ok:
+                    ctx.expect(_is_unit_real(np.asarray(q)), 'Quaternion(4-vector with norm near one): unit', key, np.asarray(q), 'unit', 1e-12)
+                ctx.cls('near-unit'); ctx.seen(('near', si, N))
         for N in (1, 2, 3, 7):
             for width, dirs in ((4, dirs4), (3, dirs3)):
                 for si, s in enumerate(DECADES):
@@ -361,6 +377,16 @@ def job_reject(ctx, k):
         must_reject(lambda: QuaternionArray(np.array(v) if not isinstance(v, str) else v), 'QuaternionArray(invalid)', f'input={name}')
         ctx.cls('reject:vector'); ctx.seen(('rejqa', name))
 
+    # complex-valued data (non-zero imaginary parts) are not real vectors / rotations: refused, never silently reduced to their real part
+    qc = A.MENU[k]
+    Rg = rq.R(A.MENU[(k + 5) % 8]); Sg = rq.R(A.MENU[(k + 2) % 8])
+    for name, fn in (('complex 4-vector', lambda: Quaternion(qc + 1j * qc[::-1])), ('complex 3-vector', lambda: Quaternion(qc[1:] + 0.5j * qc[:3])),
+                     ('complex rows', lambda: QuaternionArray(np.array([qc, qc[::-1]]) + 1j * np.array([qc[::-1], qc]))),
+                     ('complex matrix R+iS', lambda: DCM(Rg + 1j * Sg)), ('complex matrix R+i*1e-3*S', lambda: DCM(Rg + 1e-3j * Sg)),
+                     ('complex stack', lambda: DCM(np.array([Rg, Sg]) + 1j * np.array([Sg, Rg]))),
+                     ('Quaternion(dcm=complex)', lambda: Quaternion(dcm=Rg + 1j * Sg)), ('DCM(q=complex)', lambda: DCM(q=qc + 1j * qc[::-1]))):
+        must_reject(fn, 'complex-valued input', f'input={name}')
+        ctx.cls('reject:vector'); ctx.seen(('rejc', name))
     # degenerate values through the keyword routes of DCM: refused, never wrapped as a non-rotation
     for name, fn in (('axang zero axis', lambda: DCM(axang=(np.zeros(3), 0.5))), ('axang NaN axis', lambda: DCM(axang=(np.array([nan, 0.0, 1.0]), 0.5))),
                      ('axang NaN angle', lambda: DCM(axang=(np.array([0.0, 0.0, 1.0]), nan))), ('q zero', lambda: DCM(q=np.zeros(4))),
@@ -382,7 +408,11 @@ def job_reject(ctx, k):
     Rs = [rq.R(q) for q in [np.array([1.0, 0, 0, 0]), A.MENU[k], A.MENU[(k + 3) % 8], A.G48()[30], A.G48()[12], A.Gl(A.G120(), k)[17],
                             rq.axang2q([1, 2, 3], math.pi), rq.axang2q([0, 0, 1], 1e-9)]]
     good = rq.R(A.MENU[(k + 5) % 8])
+    def typed(M):
+        # the same numbers carried by a DCM-typed array (what arithmetic on an existing DCM object produces, e.g. -R, 2*R, R + E)
+        return DCM(np.eye(3)) * 0.0 + M
     routes = [('DCM(R)', lambda M: DCM(M.copy())), ('Quaternion(dcm=)', lambda M: Quaternion(dcm=M.copy())),
+              ('Quaternion(dcm=DCM-typed array)', lambda M: Quaternion(dcm=typed(M))), ('DCM(DCM-typed array)', lambda M: DCM(typed(M))),
               ('QuaternionArray(DCM=)', lambda M: QuaternionArray(DCM=M.copy()[None])),
               ('DCM(stack [M])', lambda M: DCM(M.copy()[None])), ('DCM(stack [good, M, good])', lambda M: DCM(np.array([good, M.copy(), good]))),
               ('QuaternionArray(DCM=[good, M])', lambda M: QuaternionArray(DCM=np.array([good, M.copy()])))]
